@@ -37,7 +37,8 @@ func genC04(r *Rand, idx int, tier string) Case {
 // old values are reused in later requests
 func genC06(r *Rand, idx int, tier string) Case {
 	cfg := genCfg(r)
-	cfg.MaxHand = PickInt(r, 1, 2, 3, 4, 6, 10)
+	// (a quarter of the cases without a limit: there no value may ever be reissued for another path)
+	cfg.MaxHand = PickInt(r, 1, 2, 3, 4, 6, 10, 0, 0)
 	s := NewSession(cfg, fullTree(r.U64()))
 	root := nfsx.Cred{}
 	s.Do(0, root, &nfsx.Req{Proc: "MNT", Name: []byte("/")})
@@ -54,6 +55,9 @@ func genC06(r *Rand, idx int, tier string) Case {
 			q = &nfsx.Req{Proc: "MNT", Name: []byte(PickStr(r, "/", "/a", "/a/b", "/c"))}
 		case x < 56:
 			q = &nfsx.Req{Proc: PickStr(r, "CREATE", "MKDIR"), H: s.pickHandle(r), Name: pickName(r, 0)}
+		case x < 64:
+			// objects go away and names come back: the values issued for them must not start naming something else
+			q = genReq(r, s, PickStr(r, "REMOVE", "RMDIR", "RENAME"), 0)
 		default:
 			// use any handle value seen so far, old ones included
 			q = genReq(r, s, PickStr(r, "GETATTR", "GETATTR", "READ", "ACCESS", "READLINK", "READDIR", "SETATTR", "FSSTAT", "WRITE"), 0)
